@@ -47,7 +47,7 @@ def stepJson (v : View) (o : Out) : Json :=
 
 /-- the property judged on the implementation's observations, step by step, against the
     history-defined view (`inViewF`) -/
-def specOk (evs : List Ev) (steps : Array Json) : Bool × String := Id.run do
+def specOk (evs : List Ev) (steps : Array Json) (streamFail : List Bool := []) : Bool × String := Id.run do
   let univ := addrUniverse evs
   let mut atoms : List Spec.C15.Atom := []
   let mut i := 0
@@ -77,6 +77,11 @@ def specOk (evs : List Ev) (steps : Array Json) : Bool × String := Id.run do
       return (false, "peer-reported-under-wrong-role")
     match e with
     | .connected p fails =>
+      if streamFail.getD i false then
+        -- no stream could be opened during this event: nothing reached anybody
+        if !(jarr s "broadcasts").isEmpty then return (false, "broadcast-recorded-although-no-stream-could-be-opened")
+        i := i + 1
+        continue
       let known (a : Nat) (r : Int) := Spec.C15.inViewF false atoms a r
       for b in (jarr s "broadcasts").toList do
         let to := peerOf (jobj b "to")
@@ -116,9 +121,11 @@ def specOk (evs : List Ev) (steps : Array Json) : Bool × String := Id.run do
 
 def handle (inp impl : Json) : CaseResult :=
   let evs := (jarr inp "events").toList.map evOf
+  let sf := (jarr inp "events").toList.map (fun j => jbool j "stream_fail")
   let rs := run View.empty evs
-  let m := mkObj [("steps", Json.arr (rs.map (fun r => stepJson r.1 r.2)).toArray), ("panic", false)]
-  let (ok, why) := specOk evs (jarr impl "steps")
+  let rs' := (rs.zip sf).map (fun x => if x.2 then (x.1.1, { x.1.2 with broadcasts := [] }) else x.1)
+  let m := mkObj [("steps", Json.arr (rs'.map (fun r => stepJson r.1 r.2)).toArray), ("panic", false)]
+  let (ok, why) := specOk evs (jarr impl "steps") sf
   let ok := ok && !(jbool impl "panic") && (jarr impl "steps").size == evs.length
   { model := m, spec := ok, why := if jbool impl "panic" then "panic" else why }
 end Driver.C15
